@@ -1661,6 +1661,10 @@ pub struct PlanGen {
     pub hard_error: bool,
 }
 
+/// Whether read plans may contain `ReadStep::Reenter` (the executor supports
+/// it; replay files may contain it).
+pub const REENTER_ENABLED: bool = false;
+
 pub fn gen_plan(rng: &mut Rng, doc_len: usize, interesting: &[usize], g: &PlanGen) -> ReadPlan {
     let mut plan = ReadPlan::default();
     let mode = rng.weighted(&[14, 10, 8, 22, 28, 8, 10]);
@@ -1735,7 +1739,8 @@ pub fn gen_plan(rng: &mut Rng, doc_len: usize, interesting: &[usize], g: &PlanGe
             }
         }
     }
-    if rng.chance(1, 12) {
+    // (generation switched off: see DESIGN 12, re-entrant readers)
+    if REENTER_ENABLED && rng.chance(1, 12) {
         // a reader that calls the library itself, once or twice, at any point
         // of the stream (also instead of the final Ok(0))
         for _ in 0..rng.urange(1, 2) {
